@@ -16,6 +16,7 @@
 package main
 
 import (
+	"encoding/json"
 	"fmt"
 	"go/ast"
 	"go/parser"
@@ -1280,8 +1281,27 @@ func main() {
 		emit(t)
 	}
 	out.WriteString("end Oidc.Generated.Code\n")
-	if err := os.WriteFile(outp, []byte(out.String()), 0o644); err != nil {
-		fmt.Fprintln(os.Stderr, err)
-		os.Exit(1)
+	// (rewritten only when the content changes, so that an unchanged source costs no rebuild of the Lean modules on top of it)
+	if old, err := os.ReadFile(outp); err != nil || string(old) != out.String() {
+		os.Remove(outp)
+		if err := os.WriteFile(outp, []byte(out.String()), 0o644); err != nil {
+			fmt.Fprintln(os.Stderr, err)
+			os.Exit(1)
+		}
 	}
+	// summary for the evidence: one line of JSON on stdout
+	var okNames, badNames []string
+	for _, t := range targets {
+		if funcs[t] != nil && errs[t] == "" {
+			okNames = append(okNames, t)
+		} else {
+			why := errs[t]
+			if funcs[t] == nil {
+				why = "not found"
+			}
+			badNames = append(badNames, t+": "+why)
+		}
+	}
+	js, _ := json.Marshal(map[string][]string{"translated": okNames, "untranslatable": badNames})
+	fmt.Println(string(js))
 }
